@@ -136,6 +136,29 @@ def recursive_runs(ucg, base, rep):
         if p.returncode != want or not verdicts_ok:
             rep.disagree({"leg": "recursive", "tree": files, "argv": ["ucg", "test", "-r", "."], "exit": p.returncode,
                           "expected_exit": want, "stdout": out[-800:]}, key="recursive-run:" + name)
+    # "one file's verdict does not depend on which other files were tested before it" - also when the files share an
+    # imported file that makes assertions of its own (imported files are evaluated once per run)
+    d = os.path.join(base, "order")
+    os.makedirs(os.path.join(d, ".home"), exist_ok=True)
+    for rel, text in (("lib.ucg", 'assert {ok = false, desc = "lib"};\nlet v = 1;\n'),
+                      ("one_test.ucg", 'let l = import "./lib.ucg";\nassert {ok = l.v == 1, desc = "one"};\n'),
+                      ("two_test.ucg", 'let l = import "./lib.ucg";\nassert {ok = l.v == 1, desc = "two"};\n')):
+        with open(os.path.join(d, rel), "w") as f:
+            f.write(text)
+    verdicts = {}
+    for order in (["one_test.ucg", "two_test.ucg"], ["two_test.ucg", "one_test.ucg"], ["one_test.ucg"], ["two_test.ucg"]):
+        p = subprocess.run([ucg, "test"] + order, cwd=d, env={"HOME": os.path.join(d, ".home"), "PATH": "/usr/bin:/bin"},
+                           capture_output=True, timeout=60)
+        n += 1
+        out = p.stdout.decode("utf-8", "replace")
+        for f in order:
+            v = "PASS" if ("%s - PASS" % f) in out else ("FAIL" if ("%s - FAIL" % f) in out else "?")
+            verdicts.setdefault(f, {})[" ".join(order)] = v
+    for f, vs in verdicts.items():
+        if len(set(vs.values())) != 1:
+            rep.disagree({"leg": "order", "file": f, "verdict_by_invocation": vs,
+                          "project": "lib.ucg makes a failing assertion and is imported by one_test.ucg and two_test.ucg"},
+                         key="verdict-depends-on-order:shared-import-with-assertions")
     return n
 
 
